@@ -244,7 +244,7 @@ impl FloatEncoding for f32 {
                 mantissa <<= shift as u32;
             } else {
                 let shifted = mantissa << (30 + shift) as u32;
-                round_bits = (shifted >> 28 & 0b110) as u8 | ((shifted & 0xfffffff) != 0) as u8;
+                round_bits = (shifted >> 28 & 0b110) as u8 | ((shifted & 0x1fffffff) != 0) as u8;
                 mantissa >>= (-shift) as u32;
             }
 
@@ -366,7 +366,7 @@ impl FloatEncoding for f64 {
             } else {
                 let shifted = mantissa << (62 + shift) as u64;
                 round_bits =
-                    (shifted >> 60 & 0b110) as u8 | ((shifted & 0xfffffffffffffff) != 0) as u8;
+                    (shifted >> 60 & 0b110) as u8 | ((shifted & 0x1fffffffffffffff) != 0) as u8;
                 mantissa >>= (-shift) as u32;
             }
 
